@@ -159,7 +159,14 @@ def main(ctx: Ctx):
         m = rng.choice([1, 2, 2, 3, 3, 4, 5])
         n = rng.choice([1, 2, 3, 4, 6])
         dtype = torch.float64 if i % 3 else torch.float32
-        if i % 4 == 3:
+        if i % 8 == 5:
+            # wide Jacobian of small gradients: every entry below norm_eps but s above it (s^2 via mpmath)
+            mm, nn = rng.choice([2, 3]), rng.randint(60, 200)
+            J = [[Fr(rng.choice([-1, 1]) * rng.randint(2, 9), 100000) for _ in range(nn)] for _ in range(mm)]
+            J[1] = [-a * Fr(4, 5) + b * Fr(3, 10) for a, b in zip(J[0], J[1])]
+            ctx.count("family", "wide-small-entries")
+            one_case(ctx, J, None, top_singular_sq(J), torch.float64, exact_model=False)
+        elif i % 4 == 3:
             J = m_int(rng, m, n)
             if all(v == 0 for r in J for v in r):
                 continue
